@@ -593,6 +593,7 @@ class Deep:
         if m and (not self.opaque or not self.opaque.search(path)):
             h = getattr(self, "c_" + m.group(1).lower() + "_" + m.group(2), None)
             if h is not None:
+                self._cur_f = f
                 return h(fr, st, args, site, cont)
         cb = self.F.callee_body(t, body.crate) if f.get("local") else None
         if re.search(r"default::Default::default$", path) and not args:
@@ -916,7 +917,17 @@ class Deep:
         self._case(st, a[0], "o", self.OPT, site, lambda s, n, p: cont(s, p()) if n == "Some" else self._callf(fr, s, a[1], [], site, cont))
 
     def c_option_unwrap_or_default(self, fr, st, a, site, cont):
-        self._case(st, a[0], "o", self.OPT, site, lambda s, n, p: cont(s, p()) if n == "Some" else cont(s, ("default",)))
+        f = getattr(self, "_cur_f", None) or {}
+        m = re.match(r"^(?:std|core)::option::Option<(.*)>$", f.get("self") or "")
+        ty = m.group(1).strip() if m else ((f.get("targs") or [""])[0] if "Option" in (f.get("impl_of") or f.get("path") or "") else "")
+        dflt = ("default",)
+        if ty == "bool":
+            dflt = ("const", False)
+        elif re.fullmatch(r"[ui](8|16|32|64|128|size)", ty):
+            dflt = ("const", 0)
+        elif ty.startswith("std::option::Option<"):
+            dflt = self.NONE
+        self._case(st, a[0], "o", self.OPT, site, lambda s, n, p: cont(s, p()) if n == "Some" else cont(s, dflt))
 
     def c_option_as_ref(self, fr, st, a, site, cont):
         v, pl = self._self(st, a[0])
